@@ -9,6 +9,26 @@ import sys
 ROOT = os.path.dirname(os.path.dirname(os.path.abspath(__file__)))
 
 CHECKS = {
+    "C01": dict(
+        technique="exhaustive message enumeration per code cell + Hypothesis-generated matrices (constructed full-rank G, systematic P, sparse/rank-deficient H) against a bit-packed GF(2) reference (rank, null space, membership)",
+        text="For every catalogue cell (11 families x parameters x left/right/subset/permuted information sets) and for Hypothesis-generated generator / parity / LDPC matrices the check compares encoder(m) with m.G for all 2^k messages (k<=12), rank(G)=k, rank(H)=n-k, G.H^T=0, null(H)=rowspace(G), and through the API that every codeword has a zero syndrome and every single-bit and 64 multi-bit non-codeword perturbations a non-zero one. Exploration: exhaustive in the messages of each small cell, sampled in the space of matrices.",
+        note="Trusted base: kverif/ref/gf2.py (self-checked on Hamming/Golay weight enumerators in setup). Matrices are read from the generator_matrix/check_matrix buffers. Size bound: n<=64, quick mu<=4 / thorough mu<=6.",
+        design="4/C01"),
+    "C02": dict(
+        technique="exhaustive (codeword x error pattern of weight<=t) enumeration where small, seeded sampling above, in three batch layouts; nearest-codeword validity predicate over all 2^n words against a brute-force reference codebook",
+        text="Every (code, decoder) pair allowed by the type signatures (syndrome table, brute-force ML, Berlekamp-Massey on BCH, Reed-Muller majority, Hamming / Reed-Muller inverse) is run on all codewords x all error patterns of weight <= t_advertised when that product fits the tier budget and on seeded samples otherwise, as one batch, as 1-D words and in small batches at varying row positions; return_errors consistency; complete decoders are checked on all 2^n received words (n<=10, thorough 12) with the tie-tolerant predicate wt(r+enc(dec(r))) = min_c wt(r+c).",
+        note="Reference codebook = GF(2) span of encoder(I_k); t from the advertised distance/capability (d_true where nothing is advertised). Decoder loops are slow pure Python: quick thins the cyclic catalogue and stops at BCH mu<=4 (thorough mu<=6).",
+        design="4/C02"),
+    "C03": dict(
+        technique="exact minimum distance by codeword enumeration and MacWilliams transform of the dual (cross-checked) per catalogue cell; cyclic-shift closure and generator-polynomial divisibility with an independent GF(2)[X] reference",
+        text="For every structured code cell the advertised n, k, rate, minimum distance / design distance / capability are compared with the true parameters of the row space of encoder(I_k): d_true computed exactly (enumeration k<=22/26, MacWilliams n-k<=22, both where both are small), equality where the value is documented as exact, >= otherwise; cyclic closure of every row under all n shifts, rows multiples of g in natural or reversed order, g | X^n+1, g.h = X^n+1, BCH generator degree vs lcm of minimal polynomials; sphere-packing equality for Hamming/Golay.",
+        note="Trusted base: kverif/ref/gf2.py and ref/poly.py. Cells with k>26 and n-k>22 (some BCH(63,k)) have d_true undecided and are counted as such.",
+        design="4/C03"),
+    "C04": dict(
+        technique="round-trip oracle (inverse_encode / extract_message / project_word after encode) over all messages per cell and Hypothesis-drawn layouts; rejection oracle for non-multiple lengths",
+        text="For every catalogue cell and Hypothesis-generated matrix the three inverses are applied to encode(m) for all 2^k messages (k<=12) and for seeded messages in the layouts (k,), (B,k), (B1,B2,k), (B,b.k), (B1,B2,b.k); output must equal m, the syndrome must be zero and shapes must scale by exactly k/n resp. n/k; inputs whose last dimension is not a multiple of the block size must raise.",
+        note="Hamming and Reed-Muller override inverse_encode with a single-block contract: an exception there on multi-block layouts is accepted (counted), a wrong value never is.",
+        design="4/C04"),
     "C18": dict(
         technique="exhaustive enumeration of small domains + Hypothesis-generated operands against an independent int-bitmask GF(2)[X]/GF(2^m) reference",
         text="Every clause of C18 (Euclidean division, gcd/Bezout, lcm, ring laws; field axioms, primitive order, inverse, power, trace, conjugates, minimal polynomial) is evaluated on all polynomial pairs of degree < 8, all field pairs for m <= 7 (thorough: <= 10), all triples for m <= 4 (thorough: 5), every element for m <= 8 and on Hypothesis-generated operands up to degree 200 / m = 16, and compared with a reference that shares no code with kaira. Exploration: exhaustive on the stated finite grids, sampling above them.",
